@@ -451,6 +451,9 @@ struct EstablishedStreamData {
     /// Waker to wake up the task that sends frames because their `psh_send_remaining`
     /// has increased.
     writer_waker: Arc<AtomicWaker>,
+    /// Whether the peer has sent us any `Push` frame.
+    /// If so, it may be waiting for an `Acknowledge` frame.
+    push_received: AtomicBool,
 }
 
 impl EstablishedStreamData {
@@ -527,6 +530,7 @@ impl FlowSlot {
     #[inline]
     fn dispatch(&self, data: Bytes) -> Option<core::result::Result<(), TrySendError<()>>> {
         if let Self::Established(stream_data) = self {
+            stream_data.push_received.store(true, Ordering::Relaxed);
             let r = stream_data
                 .sender
                 .as_ref()
